@@ -376,6 +376,8 @@ def _run(workload, scratch):
         after_crash = False
     # ---- exhaustive cut points of the final (valid) cache file at the decode layer
     bad = _cut_points(scratch, cache_path, src_path, calls, nfx, faults, extra)
+    if bad and bad[0] == "HARNESS":
+        return R.verdict("harness", f"{ID}/harness", bad[1], faults=faults, extra=extra)
     if bad:
         return R.verdict("violation", bad[0], dict(bad[1], history=workload["history"]), faults=faults, extra=extra)
     return R.verdict("pass", faults=faults, extra=extra)
@@ -425,6 +427,8 @@ def _cut_points(scratch, cache_path, src_path, calls, nfx, faults, extra):
         rep = _incarnate(SERVER_SEEDS[0], {"scratch": scratch, "module": MODULE, "ns": NSNAME, "calls": calls,
                                           "out": os.path.join(scratch, "rep.json")})
         extra["incarnations"] = extra.get("incarnations", 0) + 1
+        if rep.get("harness"):
+            return ("HARNESS", {"report": rep})
         if not rep.get("ok") or "cached-ok" in rep.get("path", []) or rep.get("effects") != list(range(nfx)):
             return (f"{ID}/import-failed:cache-truncated:{cls}" if not rep.get("ok") else f"{ID}/invalid-cache-executed:truncated",
                     {"exception_class_at_decode_layer": cls, "truncated_to": ln, "of": n,
